@@ -215,22 +215,26 @@ func (st *Transfer) sendFile(fileIndex int32, fl file) error {
 			st.Progress.MaybeShow(uint64(offset), false)
 		}
 		n, err := f.Read(buf)
+		// Read may return data together with an error (io.EOF in
+		// particular): send what was read before looking at the error.
+		if n > 0 {
+			chunk := buf[:n]
+			// chunk size (“rawtok” variable in openrsync)
+			if err := st.Conn.WriteInt32(int32(len(chunk))); err != nil {
+				return err
+			}
+			n, err := st.Conn.Writer.Write(chunk)
+			if err != nil {
+				return err
+			}
+			offset += n
+		}
 		if err != nil {
 			if err == io.EOF {
 				break
 			}
 			return err
 		}
-		chunk := buf[:n]
-		// chunk size (“rawtok” variable in openrsync)
-		if err := st.Conn.WriteInt32(int32(len(chunk))); err != nil {
-			return err
-		}
-		n, err = st.Conn.Writer.Write(chunk)
-		if err != nil {
-			return err
-		}
-		offset += n
 	}
 	if st.Opts.InfoGTE(rsyncopts.INFO_PROGRESS, 1) {
 		st.Progress.Show(uint64(offset), true)
